@@ -155,7 +155,13 @@ func (e *Enc) instr(in ssa.Instruction, st *State) {
 			return
 		}
 		panic(unsupported{"Index on " + x.X.Type().String()})
-	case *ssa.Range, *ssa.Next, *ssa.TypeAssert, *ssa.MakeClosure, *ssa.MakeChan, *ssa.Send, *ssa.Go, *ssa.Defer, *ssa.Select:
+	case *ssa.Send:
+		// channel operations are not modelled (DESIGN 2.2): for panic freedom of the sender a send is a
+		// skip apart from the nil-channel / closed-channel cases, which are stated as an assumption
+		e.term(x.Chan)
+		e.term(x.X)
+		e.usedSend = true
+	case *ssa.Range, *ssa.Next, *ssa.TypeAssert, *ssa.MakeClosure, *ssa.MakeChan, *ssa.Go, *ssa.Defer, *ssa.Select:
 		e.otherInstr(in, st)
 	default:
 		panic(unsupported{fmt.Sprintf("instruction %T", in)})
